@@ -6,17 +6,18 @@ from fractions import Fraction
 import vlib
 sys.path.insert(0, os.path.join(vlib.VERIF, 'tools', 'translate'))
 
-LEAN_TARGETS = ['CvxVerif.Props.C17']
+LEAN_TARGETS = ['CvxVerif.Props.C17', 'CvxVerif.Props.C17More']
 MODEL_FILES = ['CvxVerif.Model.BlasSpec', 'CvxVerif.Model.CWrap', 'CvxVerif.Gen.BlasWrap', 'CvxVerif.Proofs.BlasSpec']
 LEVEL = 'proof'
 TRUSTED = ['hand-written reference semantics lean/CvxVerif/Model/BlasSpec.lean (from the reference BLAS definitions)',
            'translator cwrap2lean (defaults and accept logic of each wrapper)', 'the numerical kernel is the external BLAS (OpenBLAS), '
            'compared exactly on integer-grid data']
 ASSUMPTIONS = ['data are small integers / Gaussian integers (and powers of two on triangular diagonals), so every operation is exact in doubles',
-               'routines compared: swap scal copy axpy dot dotu asum nrm2 iamax gemv symv hemv ger geru syr her trmv tbmv trsv tbsv gemm syrk trmm']
+               'routines compared: all 34 wrappers of blas.c (levels 1-3, including band, Hermitian and rank-2k routines and the triangular solves)']
 
 SPEC = ['swap', 'scal', 'copy', 'axpy', 'dot', 'dotu', 'asum', 'nrm2', 'iamax', 'gemv', 'symv', 'hemv', 'ger', 'geru', 'syr', 'her',
-        'trmv', 'tbmv', 'trsv', 'tbsv', 'gemm', 'syrk', 'trmm']
+        'trmv', 'tbmv', 'trsv', 'tbsv', 'gemm', 'syrk', 'trmm',
+        'gbmv', 'sbmv', 'hbmv', 'syr2', 'her2', 'symm', 'hemm', 'herk', 'syr2k', 'her2k', 'trsm']
 
 def translate(ctx):
     import cwrap2lean
@@ -49,7 +50,7 @@ def correspond(ctx):
     TCS = {}
     for name in SPEC:
         TCS[name] = 'dz'
-    for name, tcs in (('symv', 'd'), ('syr', 'd')): TCS[name] = tcs
+    for name, tcs in (('symv', 'd'), ('syr', 'd'), ('sbmv', 'd'), ('syr2', 'd')): TCS[name] = tcs
     lines, obs, meta = [], [], []
     def val(tc):
         return float(rng.randint(-3, 3)) if tc == 'd' else complex(rng.randint(-2, 2), rng.randint(-2, 2))
@@ -120,6 +121,41 @@ def correspond(ctx):
                 mats = {'A': A, 'C': C}
                 kw = {'uplo': uplo, 'trans': tr, 'n': n, 'k': k, 'ldA': ldA, 'ldC': ldC, 'offsetA': oA, 'offsetC': oC, 'alpha': val(tc), 'beta': val(tc)}
             elif name == 'trmm':
+                dimA = m if side == 'L' else n
+                ldA, oA, A = matbuf(dimA, dimA, tri=True); ldB, oB, B = matbuf(m, n)
+                mats = {'A': A, 'B': B}
+                kw = {'side': side, 'uplo': uplo, 'transA': trans, 'diag': diag, 'm': m, 'n': n, 'ldA': ldA, 'ldB': ldB, 'offsetA': oA, 'offsetB': oB, 'alpha': val(tc)}
+            elif name == 'gbmv':
+                kl, ku = rng.randint(0, 2), rng.randint(0, 2)
+                ld, oA, A = matbuf(kl + ku + 1, n); lx, ly = (n, m) if trans == 'N' else (m, n)
+                ix, ox, x = vecbuf(lx); iy, oy, y = vecbuf(ly)
+                mats = {'A': A, 'x': x, 'y': y}
+                kw = {'m': m, 'kl': kl, 'trans': trans, 'n': n, 'ku': ku, 'ldA': ld, 'incx': ix, 'incy': iy, 'offsetA': oA, 'offsetx': ox, 'offsety': oy, 'alpha': val(tc), 'beta': val(tc)}
+            elif name in ('sbmv', 'hbmv'):
+                ld, oA, A = matbuf(k + 1, n); ix, ox, x = vecbuf(n); iy, oy, y = vecbuf(n)
+                mats = {'A': A, 'x': x, 'y': y}
+                kw = {'uplo': uplo, 'n': n, 'k': k, 'ldA': ld, 'incx': ix, 'incy': iy, 'offsetA': oA, 'offsetx': ox, 'offsety': oy, 'alpha': val(tc), 'beta': val(tc)}
+            elif name in ('syr2', 'her2'):
+                ld, oA, A = matbuf(n, n); ix, ox, x = vecbuf(n); iy, oy, y = vecbuf(n)
+                mats = {'x': x, 'y': y, 'A': A}
+                kw = {'uplo': uplo, 'n': n, 'ldA': ld, 'incx': ix, 'incy': iy, 'offsetA': oA, 'offsetx': ox, 'offsety': oy, 'alpha': val(tc)}
+            elif name in ('symm', 'hemm'):
+                dimA = m if side == 'L' else n
+                ldA, oA, A = matbuf(dimA, dimA); ldB, oB, B = matbuf(m, n); ldC, oC, C = matbuf(m, n)
+                mats = {'A': A, 'B': B, 'C': C}
+                kw = {'side': side, 'uplo': uplo, 'm': m, 'n': n, 'ldA': ldA, 'ldB': ldB, 'ldC': ldC, 'offsetA': oA, 'offsetB': oB, 'offsetC': oC, 'alpha': val(tc), 'beta': val(tc)}
+            elif name == 'herk':
+                tr = rng.choice('NC' if tc == 'z' else 'NTC')
+                ldA, oA, A = matbuf(*((n, k) if tr == 'N' else (k, n))); ldC, oC, C = matbuf(n, n)
+                mats = {'A': A, 'C': C}
+                kw = {'uplo': uplo, 'trans': tr, 'n': n, 'k': k, 'ldA': ldA, 'ldC': ldC, 'offsetA': oA, 'offsetC': oC, 'alpha': float(rng.randint(-2, 2)), 'beta': float(rng.randint(-2, 2))}
+            elif name in ('syr2k', 'her2k'):
+                tr = rng.choice('NT') if name == 'syr2k' else rng.choice('NC' if tc == 'z' else 'NTC')
+                ldA, oA, A = matbuf(*((n, k) if tr == 'N' else (k, n))); ldB, oB, B = matbuf(*((n, k) if tr == 'N' else (k, n))); ldC, oC, C = matbuf(n, n)
+                mats = {'A': A, 'B': B, 'C': C}
+                kw = {'uplo': uplo, 'trans': tr, 'n': n, 'k': k, 'ldA': ldA, 'ldB': ldB, 'ldC': ldC, 'offsetA': oA, 'offsetB': oB, 'offsetC': oC, 'alpha': val(tc),
+                      'beta': (float(rng.randint(-2, 2)) if name == 'her2k' else val(tc))}
+            elif name == 'trsm':
                 dimA = m if side == 'L' else n
                 ldA, oA, A = matbuf(dimA, dimA, tri=True); ldB, oB, B = matbuf(m, n)
                 mats = {'A': A, 'B': B}
